@@ -302,9 +302,10 @@ impl<'a> DocAllocator<'a> for Allocator {
 impl Allocator {
     fn record<'a>(&'a self, record: &Record) -> DocBuilder<'a, Self> {
         let size_per_child = self.size_constraint() / record.field_defs.len().max(1);
-        if record.field_defs.is_empty() && !record.open {
+        let no_decls = record.field_defs.is_empty() && record.includes.is_empty();
+        if no_decls && !record.open {
             self.text("{}")
-        } else if record.field_defs.is_empty() {
+        } else if no_decls {
             "{..}".pretty(self)
         } else if size_per_child == 0 || self.depth_constraint() == 0 {
             "{…}".pretty(self)
@@ -331,7 +332,7 @@ impl Allocator {
                             }),
                         docs![alloc, ",", alloc.line()]
                     ),
-                    if !record.includes.is_empty() {
+                    if !record.includes.is_empty() && !record.field_defs.is_empty() {
                         docs![alloc, ",", alloc.line()]
                     } else {
                         alloc.nil()
